@@ -2,9 +2,10 @@
    Statements only; proofs live in C15/Proofs*.v.  Model: C15/Model.v (transcription of
    psutil/_psposix.py wait_pid, psutil/__init__.py Process.wait and wait_procs),
    specification: C15/Spec.v (virtual kernel k_waitpid / k_exists of a process p with exit
-   instant p_exit, status p_status, EINTR positions p_eintr; virtual time in Q).
+   instant p_exit, status p_status, interrupted waitpid calls p_eintr = [(call index, signal delay)];
+   virtual time in Q).
    process_wait W E pid o tmo fuel t0 = (result, object afterwards, return instant, sleep() arguments). *)
-From PV Require Import C15.Spec C15.Proofs C15.ProofsProcs.
+From PV Require Import C15.Spec C15.Proofs C15.ProofsProcs C15.ProofsTerm C15.ProofsOracle.
 From Coq Require Import Permutation.
 Open Scope Z_scope.
 Open Scope Q_scope.
@@ -139,3 +140,82 @@ Theorem C15_wait_procs_deadline : forall ps cb fuel order,
   g_now g < start + tm + (1 # 25).
 Proof. exact wait_procs_deadline. Qed.
 Print Assumptions C15_wait_procs_deadline.
+
+(* 5. termination.  With a timeout the polling loop needs at most ceil(25 * timeout) + 12 steps, for EVERY
+   kernel (any answers of waitpid / pid_exists, any EINTR placement) whose clock does not run backwards,
+   every start instant and PID: ROutOfFuel (the model's "still looping") is impossible with that fuel *)
+Theorem C15_wait_pid_terminates : forall (W : nat -> Q -> bool -> wp) (E : Q -> bool) pid tm fuel start c0,
+  (forall i t0 h t, W i t0 h = WEintr t -> t0 <= t) ->
+  (Z.to_nat (Qround.Qceiling (tm * 25)) + 12 <= fuel)%nat ->
+  fst (wait_pid W E pid (Some tm) fuel start c0) <> ROutOfFuel.
+Proof. exact wait_pid_terminates. Qed.
+Print Assumptions C15_wait_pid_terminates.
+
+(* without a timeout: a wait on a process that ends at a finite instant T (or never existed) returns a value
+   within #EINTR + 12 + ceil(25 * (T - start)) steps ... *)
+Theorem C15_wait_blocking_terminates : forall p, wf_proc p = true -> forall start,
+  p_kind p = NeverExisted \/ (exists T, p_exit p = Some T) ->
+  forall fuel c0, (block_bound p start <= fuel)%nat ->
+  is_value (fst (wait_pid (k_waitpid p) (k_exists p) (p_pid p) None fuel start c0)) = true.
+Proof. exact wait_blocking_terminates. Qed.
+Print Assumptions C15_wait_blocking_terminates.
+
+(* ... and it returns a value for SOME fuel iff the exit instant is finite (or the PID never existed):
+   otherwise it hangs in waitpid (child) or polls for ever (non-child) *)
+Theorem C15_wait_blocking_iff : forall p start c0, wf_proc p = true ->
+  ((exists fuel, is_value (fst (wait_pid (k_waitpid p) (k_exists p) (p_pid p) None fuel start c0)) = true)
+   <-> (p_kind p = NeverExisted \/ exists T, p_exit p = Some T)).
+Proof. exact wait_blocking_iff. Qed.
+Print Assumptions C15_wait_blocking_iff.
+
+(* wait_procs(timeout): |procs| + ceil(timeout) + 1 rounds of the outer loop (and the fuel of a one-second
+   wait in the inner loops) always suffice, for every iteration order, exit schedule and EINTR placement *)
+Theorem C15_wait_procs_terminates : forall ps cb fuel order,
+  (forall r l, Permutation (order r l) l) -> forallb wf_proc ps = true ->
+  forall tm rounds start exc gone alive g,
+  0 <= tm -> (polls_bound 1 <= fuel)%nat ->
+  (length ps + Z.to_nat (Qround.Qceiling tm) + 1 <= rounds)%nat ->
+  wait_procs (map to_ko ps) cb fuel order (Some tm) rounds start = (exc, gone, alive, g) ->
+  exc <> Some ROutOfFuel.
+Proof. exact wait_procs_terminates. Qed.
+Print Assumptions C15_wait_procs_terminates.
+
+(* 9. the oracles the harness applies to the implementation's observations are theorems of the model:
+   every un-cached wait() run that comes back satisfies spec_wait (lenient always; strict = "TimeoutExpired
+   only while alive" on EINTR-free schedules), so a faithful implementation can never trip the oracle *)
+Theorem C15_wait_meets_oracle : forall p c0 tmo fuel t0 r o' t' sl,
+  wf_proc p = true ->
+  process_wait (k_waitpid p) (k_exists p) (p_pid p) (fresh c0) tmo fuel t0 = (r, o', t', sl) ->
+  r <> ROutOfFuel ->
+  spec_wait false p t0 tmo {| o_res := r; o_ret := t'; o_sleeps := sl |} = true /\
+  (p_eintr p = [] -> spec_wait true p t0 tmo {| o_res := r; o_ret := t'; o_sleeps := sl |} = true).
+Proof. exact wait_meets_oracle. Qed.
+Print Assumptions C15_wait_meets_oracle.
+
+Theorem C15_wait_meets_oracle_fuel : forall p c0 tm fuel t0 r o' t' sl,
+  wf_proc p = true -> (polls_bound tm <= fuel)%nat ->
+  process_wait (k_waitpid p) (k_exists p) (p_pid p) (fresh c0) (Some tm) fuel t0 = (r, o', t', sl) ->
+  spec_wait false p t0 (Some tm) {| o_res := r; o_ret := t'; o_sleeps := sl |} = true /\
+  (p_eintr p = [] -> spec_wait true p t0 (Some tm) {| o_res := r; o_ret := t'; o_sleeps := sl |} = true).
+Proof. exact wait_meets_oracle_fuel. Qed.
+Print Assumptions C15_wait_meets_oracle_fuel.
+
+(* ... and every wait_procs run satisfies spec_procs: argument errors, partition, every returncode right and
+   not early, one callback per gone process, back before timeout + 40 ms *)
+Theorem C15_wait_procs_meets_oracle : forall ps cb fuel order,
+  (forall r l, Permutation (order r l) l) -> forallb wf_proc ps = true ->
+  forall tmo rounds start exc gone alive g,
+  wait_procs (map to_ko ps) cb fuel order tmo rounds start = (exc, gone, alive, g) ->
+  exc <> Some ROutOfFuel ->
+  spec_procs ps cb start tmo exc gone alive (g_rc g) (g_cb g) (g_now g) = true.
+Proof. exact wait_procs_meets_oracle. Qed.
+Print Assumptions C15_wait_procs_meets_oracle.
+
+Theorem C15_wait_procs_meets_oracle_fuel : forall ps cb fuel order,
+  (forall r l, Permutation (order r l) l) -> forallb wf_proc ps = true ->
+  forall tm rounds start exc gone alive g,
+  0 <= tm -> (polls_bound 1 <= fuel)%nat -> (rounds_bound (length ps) tm <= rounds)%nat ->
+  wait_procs (map to_ko ps) cb fuel order (Some tm) rounds start = (exc, gone, alive, g) ->
+  spec_procs ps cb start (Some tm) exc gone alive (g_rc g) (g_cb g) (g_now g) = true.
+Proof. exact wait_procs_meets_oracle_fuel. Qed.
+Print Assumptions C15_wait_procs_meets_oracle_fuel.
